@@ -154,6 +154,7 @@ func runHistory(r *vk.Run, t *target, hno int, probe bool) {
 		// the first history of every triple runs each operation class once, early, so that a crash is found (and its
 		// key skipped on restart) before the bulk of the work
 		ops := []string{"open", "update:none", "update:valid", "getm", "open-masked", "update:empty", "update:invalid", "maskprobe"}
+		h.hintScenario() // on the still untouched instance
 		for _, op := range ops {
 			h.step++
 			h.doOp(op)
@@ -217,6 +218,10 @@ func (h *histCtx) doOp(op string) {
 
 // maskedGet checks Get(read_mask) == RefProject(full Get).
 func (h *histCtx) maskedGet(key string) {
+	h.maskedGetWith(key, h.t.mg.readMask(h.rng))
+}
+
+func (h *histCtx) maskedGetWith(key string, mask []string) {
 	tr := h.t.tr
 	if tr.getMask == nil {
 		return
@@ -228,7 +233,6 @@ func (h *histCtx) maskedGet(key string) {
 	if !ok || err != nil {
 		return
 	}
-	mask := h.t.mg.readMask(h.rng)
 	got, err := h.in.unary(tr.get, tr.getReq(h.in.name, key, mask))
 	h.r.Count("rpc/get-masked", 1)
 	h.logf("Get(key=%q, read_mask=%v) -> %s %s", key, mask, codeOf(err), vk.JSON(got))
@@ -243,6 +247,20 @@ func (h *histCtx) maskedGet(key string) {
 	if !proto.Equal(got, want) {
 		h.violate("masked-get", fmt.Sprintf("Get(read_mask=%v) = %s, projection of the full Get %s is %s", mask, vk.JSON(got), vk.JSON(full), vk.JSON(want)))
 	}
+	h.checkReadOnly(key, full, "get-masked", fmt.Sprintf("a Get with read mask %v", mask))
+}
+
+// checkReadOnly: "the full Get" must be the same before and after a read (masked Get, opening a Pull); a read that
+// changes what Get returns leaves no register to be coherent with.
+func (h *histCtx) checkReadOnly(key string, before proto.Message, op, what string) {
+	beforeCode := h.curE[key]
+	after, aerr, _ := h.getFull(key)
+	h.r.Eval(1)
+	h.r.Count("checked/read-leaves-get-unchanged", 1)
+	if !sameState(before, beforeCode, after, codeOf(aerr)) {
+		h.logf("Get(key=%q) -> %s %s", key, codeOf(aerr), vk.JSON(after))
+		h.violate("read-changed-value/"+op, fmt.Sprintf("%s changed what the full Get returns, from %s to %s %s", what, vk.JSON(before), codeOf(aerr), vk.JSON(after)))
+	}
 }
 
 func (h *histCtx) openStream(masked bool) {
@@ -253,7 +271,14 @@ func (h *histCtx) openStream(masked bool) {
 	if masked && tr.pullMask != nil {
 		mask = h.t.mg.readMask(h.rng)
 	}
-	updatesOnly := tr.pullOnly != nil && h.rng.Chance(1, 4)
+	h.openStreamWith(key, mask, tr.pullOnly != nil && h.rng.Chance(1, 4))
+}
+
+func (h *histCtx) openStreamWith(key string, mask []string, updatesOnly bool) {
+	tr := h.t.tr
+	if mask != nil && tr.pullMask == nil {
+		mask = nil
+	}
 	cls := "pull-open"
 	sfx := ""
 	if mask != nil {
@@ -318,6 +343,11 @@ func (h *histCtx) openStream(masked bool) {
 		}
 	}
 	h.strs = append(h.strs, ps)
+	op := "pull"
+	if mask != nil {
+		op = "pull-masked"
+	}
+	h.checkReadOnly(key, full, op, fmt.Sprintf("opening a Pull with read mask %v", mask))
 }
 
 func describeChanges(cs []change) string {
@@ -698,4 +728,80 @@ func setDifferent(rng *vk.Rand, m protoreflect.Message, fd protoreflect.FieldDes
 		}
 	}
 	return ""
+}
+
+// hintScenario is a directed part of the first history: for every value the table lists as accepted by a business
+// rule (a preset name, a mode id) the Update {field: value} is sent, then every mask path at or below the same
+// top-level field is used for a masked Get and a masked Pull. Business rules that hydrate a value from the model's
+// own configuration are where a server hands out (and a read filter then prunes) shared messages.
+func (h *histCtx) hintScenario() {
+	tr := h.t.tr
+	var hps []string
+	for k := range h.t.e.hints {
+		if strings.HasPrefix(k, tr.x+".") {
+			hps = append(hps, strings.TrimPrefix(k, tr.x+"."))
+		}
+	}
+	sort.Strings(hps)
+	ks := h.keys()
+	for _, hp := range hps {
+		top := hp
+		if i := strings.IndexByte(hp, '.'); i >= 0 {
+			top = hp[:i]
+		}
+		var paths []string
+		for _, p := range h.t.mg.valid {
+			if p == top || strings.HasPrefix(p, top+".") {
+				paths = append(paths, p)
+			}
+		}
+		for _, hv := range h.t.e.hints[tr.x+"."+hp] {
+			h.step++
+			v := newMsg(tr.t)
+			if !setPath(v, hp, hv) {
+				continue
+			}
+			if tr.valueKey != nil {
+				v.Set(tr.valueKey, protoreflect.ValueOfString(ks[0]))
+			}
+			u := &updSpec{key: ks[0], value: v.Interface(), maskClass: "none", valueKind: "hint", touched: []string{top}}
+			h.buildReq(u)
+			if _, err, _, _, ran := h.doUpdate(u); !ran || err != nil {
+				continue
+			}
+			for _, p := range paths {
+				h.step++
+				h.maskedGetWith(ks[0], []string{p})
+				h.step++
+				h.openStreamWith(ks[0], []string{p}, false)
+				if n := len(h.strs); n > 0 {
+					h.strs[n-1].cancel()
+					h.strs = h.strs[:n-1]
+				}
+			}
+		}
+	}
+}
+
+// setPath sets the string field at a dotted path (through singular messages) of m.
+func setPath(m protoreflect.Message, path, val string) bool {
+	segs := strings.Split(path, ".")
+	for i, sname := range segs {
+		fd := m.Descriptor().Fields().ByName(protoreflect.Name(sname))
+		if fd == nil {
+			return false
+		}
+		if i == len(segs)-1 {
+			if fd.Kind() != protoreflect.StringKind || fd.IsList() {
+				return false
+			}
+			m.Set(fd, protoreflect.ValueOfString(val))
+			return true
+		}
+		if fd.Message() == nil || fd.IsList() || fd.IsMap() {
+			return false
+		}
+		m = m.Mutable(fd).Message()
+	}
+	return false
 }
